@@ -464,6 +464,12 @@ impl Oracle for DisconnectOracle {
                     if now && c.connected.contains(ep) {
                         c.now_call_ns.entry(*ep).or_insert(cx.now_ns);
                     }
+                    // a later disconnect() replaces the request (the library lets the last call
+                    // decide): the immediacy claim only stands while disconnect_now() is the
+                    // latest call
+                    if !now && !c.first_disc_ns.contains_key(ep) {
+                        c.now_call_ns.remove(ep);
+                    }
                 }
             }
             Rec::Call { op: Op::ServerDrop { to, .. }, skipped: false, .. } => {
